@@ -143,10 +143,20 @@ def frag_observe(d: int, maxlen: int, groupings, backing="mem", payload=None):
         msg = DM.C_STORE_RQ()
         msg.primitive_to_message(p)
         cmd_bytes_len = None
-        pdatas = list(msg.encode_msg(CTX, maxlen))
+        # an exception out of the fragmenter is an observation (the message cannot be sent completely), not a harness failure:
+        # whatever was produced before it is what a peer would have received
+        pdatas, raised = [], ""
+        try:
+            for pd in msg.encode_msg(CTX, maxlen):
+                pdatas.append(pd)
+        except Exception as e:  # noqa: BLE001
+            raised = f"{type(e).__name__}: {e}"[:160]
         pdvs, pdulens = pdv_list(pdatas)
         rx = []
         for g in groupings:
+            if not pdvs:
+                rx.append({"done": False, "cmdok": False, "dsok": False, "groups": list(g)})
+                continue
             m2, done = receive(regroup(pdvs, g))
             cmdok = done and m2.command_set == msg.command_set
             got = m2.data_set.getvalue() if (done and m2.data_set is not None) else b""
@@ -154,7 +164,7 @@ def frag_observe(d: int, maxlen: int, groupings, backing="mem", payload=None):
         return {"kind": "frag", "d": d, "max": maxlen, "backing": backing,
                 "pdvs": [{"cmd": bool(h & 1), "last": bool(h & 2), "len": len(b)} for _, h, b in pdvs],
                 "pdulens": pdulens, "announces": int(msg.command_set.CommandDataSetType) != 0x0101, "rx": rx,
-                "ctxok": all(c == CTX for c, _, _ in pdvs)}
+                "ctxok": all(c == CTX for c, _, _ in pdvs), "raised": raised}
     finally:
         if tmp:
             os.unlink(tmp)
